@@ -467,7 +467,8 @@ fn batch<E: Engine>(args: &Args) -> i32 {
         "[{}] property={} tier={} VERIF_SEED={} cases={} workers={}",
         E::name(), args.property, args.tier.name(), args.seed, total, workers
     );
-    let tmp = verif_root().join("replays").join("tmp");
+    // per-worker progress files live on tmpfs when there is one (a write per case)
+    let tmp = if Path::new("/dev/shm").is_dir() { PathBuf::from("/dev/shm/verif-sim") } else { verif_root().join("replays").join("tmp") };
     let _ = std::fs::create_dir_all(&tmp);
     let run_tag = format!("{}-{}-{}", E::name(), args.property, std::process::id());
     let state_path = |w: usize| tmp.join(format!("{run_tag}-w{w}.state"));
@@ -571,6 +572,9 @@ fn batch<E: Engine>(args: &Args) -> i32 {
                 } else if let Some(rest) = line.strip_prefix("V ") {
                     let v: WorkerViolation = serde_json::from_str(rest).unwrap_or_else(|e| harness_error(&format!("bad violation from worker {w}: {e}")));
                     *key_counts.entry(v.violation.key.clone()).or_insert(0) += 1;
+                    if std::env::var("VERIF_VERBOSE").is_ok() {
+                        eprintln!("found: case {} key={} detail={}", v.index, v.violation.key, v.violation.detail);
+                    }
                     let e = found.entry(v.violation.key.clone());
                     let f = Found { tag: if v.tag.is_empty() { own_tag.clone() } else { v.tag }, index: v.index, case_seed: v.case_seed, case: v.case, violation: v.violation };
                     match e {
@@ -623,6 +627,43 @@ fn batch<E: Engine>(args: &Args) -> i32 {
             }
         }
     }
+    // Regression cases: minimised replays of earlier findings (fixed defects,
+    // seeded breakages) kept under regress/<property>/ are re-run on every batch.
+    let mut regress_run = 0u64;
+    let reg_dir = verif_root().join("regress").join(&args.property);
+    if let Ok(rd) = std::fs::read_dir(&reg_dir) {
+        let mut files: Vec<PathBuf> = rd.filter_map(|e| e.ok().map(|e| e.path())).filter(|p| p.extension().map(|x| x == "json").unwrap_or(false)).collect();
+        files.sort();
+        let mut servers: BTreeMap<String, EvalServer> = BTreeMap::new();
+        for (i, f) in files.iter().enumerate() {
+            let Ok(text) = std::fs::read_to_string(f) else { continue };
+            let Ok(v) = serde_json::from_str::<Value>(&text) else { harness_error(&format!("regress file {} is not JSON", f.display())) };
+            if v["engine"].as_str() != Some(E::name()) {
+                continue;
+            }
+            let Ok(case) = serde_json::from_value::<E::Case>(v["case"].clone()) else { harness_error(&format!("regress file {}: case does not parse", f.display())) };
+            let mut tags = vec![v["build"].as_str().unwrap_or(&own_tag).to_string()];
+            if lanes == 2 {
+                for t in [own_tag.clone(), args.alt_exe.as_ref().unwrap().0.clone()] {
+                    if !tags.contains(&t) {
+                        tags.push(t);
+                    }
+                }
+            } else {
+                tags = vec![own_tag.clone()];
+            }
+            for tag in tags {
+                let server = servers.entry(tag.clone()).or_insert_with(|| EvalServer::new(args, &tag, info.hang_secs));
+                regress_run += 1;
+                agg.evals += 1;
+                agg.executions += 1;
+                if let Some(viol) = server.eval(&case) {
+                    *key_counts.entry(viol.key.clone()).or_insert(0) += 1;
+                    found.entry(viol.key.clone()).or_insert(Found { tag: tag.clone(), index: u64::MAX - i as u64, case_seed: 0, case: v["case"].clone(), violation: viol });
+                }
+            }
+        }
+    }
     let explore_s = t0.elapsed().as_secs_f64();
 
     // determinism dump
@@ -669,7 +710,11 @@ fn batch<E: Engine>(args: &Args) -> i32 {
         let to_size = serde_json::to_string(&min_case).map(|s| s.len()).unwrap_or(0);
         let dir = verif_root().join("replays").join(&args.property);
         let _ = std::fs::create_dir_all(&dir);
-        let path = dir.join(format!("{}-s{}-i{}.json", sanitise(key), args.seed, f.index));
+        let path = if f.index > u64::MAX / 2 {
+            dir.join(format!("{}-s{}-regress{}.json", sanitise(key), args.seed, u64::MAX - f.index))
+        } else {
+            dir.join(format!("{}-s{}-i{}.json", sanitise(key), args.seed, f.index))
+        };
         let replay = json!({
             "property": args.property,
             "engine": E::name(),
@@ -751,6 +796,7 @@ fn batch<E: Engine>(args: &Args) -> i32 {
                 "run_digest": format!("{:016x}", agg.digest),
                 "workers": workers,
                 "worker_restarts_after_abort_or_hang": restarts,
+                "regression_replays_run": regress_run,
                 "components_real": info.real_components,
                 "components_stub": info.stub_components,
                 "technique": info.technique,
@@ -796,7 +842,7 @@ fn eval_in_subprocess<E: Engine>(args: &Args, tag: &str, case: &E::Case, hang_se
         .arg("--seed").arg(args.seed.to_string())
         .arg(&path)
         .stdout(Stdio::piped())
-        .stderr(Stdio::null())
+        .stderr(Stdio::inherit())
         .stdin(Stdio::null())
         .spawn()
         .unwrap_or_else(|e| harness_error(&format!("spawn eval: {e}")));
@@ -848,7 +894,13 @@ fn serve_cmd<E: Engine>(args: &Args) -> i32 {
     for line in stdin.lock().lines().map_while(Result::ok) {
         let v: Value = serde_json::from_str(&line).unwrap_or_else(|e| harness_error(&format!("serve: parse: {e}")));
         let case: E::Case = serde_json::from_value(v).unwrap_or_else(|e| harness_error(&format!("serve: case: {e}")));
-        let r = run_guarded(&engine, &case);
+        // A shrink candidate may be malformed for the engine; that is a rejected
+        // candidate, not a verdict (batch, eval and replay stay strict).
+        let mut ctx = Ctx::default();
+        let r = match crate::catch::catch(|| engine.run_case(&case, &mut ctx)) {
+            Ok(o) => o.violation,
+            Err(p) => Some(Violation::new("HARNESS-PANIC", format!("{} at {}", p.message, p.location))),
+        };
         let mut o = stdout.lock();
         let _ = writeln!(o, "R {}", serde_json::to_string(&r).unwrap());
         let _ = o.flush();
